@@ -286,4 +286,21 @@ def make_case(cid, build, rng, nenv=3):
     r, f = to_tla(raw), to_tla(fin)
     if r is None or f is None:
         return None
-    return {'id': cid, 'raw': r, 'fin': f, 'envs': [make_env(raw, fin, rng) for _ in range(nenv)]}
+    return {'id': cid, 'raw': r, 'fin': f, 'envs': [make_env(raw, fin, rng) for _ in range(nenv)], 'alt': EMPTY_PROG}
+
+
+EMPTY_PROG = {'dim': 1, 'geo_dim': 1, 'boundary': False, 'spacetime': False, 'nodes': [], 'outs': [], 'vars': [],
+              'precomp': [], 'kernel': [], 'deps': [], 'outdeps': []}
+
+
+def make_pair_case(cid, build_a, build_b, rng, nenv=3):
+    """two API-built forms that must denote the same integrand: raw/fin of A, raw of B as the reference"""
+    c = make_case(cid, build_a, rng, nenv=nenv)
+    if c is None:
+        return None
+    vb = build_b()
+    alt = to_tla(export(vb, False))
+    if alt is None:
+        return None
+    c['alt'] = alt
+    return c
